@@ -26,7 +26,7 @@ class Detector(object):
         self.detector_grid = detector_grid
         self.subsamping = subsamping
 
-        if subsamping > 1:
+        if np.any(np.asarray(subsamping) > 1):
             self.input_grid = make_supersampled_grid(detector_grid, subsamping)
         else:
             self.input_grid = detector_grid
@@ -123,7 +123,7 @@ class NoiselessDetector(Detector):
         if not hasattr(power, 'grid'):
             power = Field(np.asarray(power), self.input_grid)
 
-        if self.subsamping > 1:
+        if np.any(np.asarray(self.subsamping) > 1):
             power = subsample_field(power, subsampling=self.subsamping, new_grid=self.detector_grid, statistic='sum')
         else:
             if power.shape[-1:] != (self.detector_grid.size,):
